@@ -77,6 +77,7 @@ class PostprocessManager:
                 "-m",
                 "ruff",
                 "check",
+                "--no-cache",  # no .ruff_cache directory beside whatever the caller's working directory is
                 "--select=F401",
                 "--fix",
             ]
@@ -101,6 +102,7 @@ class PostprocessManager:
                 "-m",
                 "ruff",
                 "check",
+                "--no-cache",  # no .ruff_cache directory beside whatever the caller's working directory is
                 "--select=I",
                 "--fix",
             ]
@@ -125,6 +127,7 @@ class PostprocessManager:
                 "-m",
                 "ruff",
                 "format",
+                "--no-cache",  # no .ruff_cache directory beside whatever the caller's working directory is
             ]
             + [str(t) for t in targets],
             stdout=subprocess.PIPE,
@@ -145,6 +148,7 @@ class PostprocessManager:
                 "-m",
                 "ruff",
                 "check",
+                "--no-cache",  # no .ruff_cache directory beside whatever the caller's working directory is
                 "--select=F401",
                 "--fix",
                 str(target),
@@ -167,6 +171,7 @@ class PostprocessManager:
                 "-m",
                 "ruff",
                 "check",
+                "--no-cache",  # no .ruff_cache directory beside whatever the caller's working directory is
                 "--select=I",
                 "--fix",
                 str(target),
@@ -189,6 +194,7 @@ class PostprocessManager:
                 "-m",
                 "ruff",
                 "format",
+                "--no-cache",  # no .ruff_cache directory beside whatever the caller's working directory is
                 str(target),
             ],
             stdout=subprocess.PIPE,
